@@ -302,7 +302,7 @@ def _walk(edges, res, v1, v2, cr, xe, ce):
 
 def _audit(ctx):
     prog = ctx.prog
-    audit.run(ctx, "R6", [X + "xargs_main"], "xargs")
+    audit.run(ctx, "R6", [X + "xargs_main", "xargs::main"], "xargs")
     for comp in panic.recursion_cycles(prog, [X + "xargs_main"]):
         if any("LimiterCursor" in x for x in comp):
             tn = prog.fns.get(X + "LimiterCursor::<'_>::try_next")
